@@ -14,6 +14,7 @@ import (
 	"fmt"
 	"log/slog"
 	"os"
+	"slices"
 	"strings"
 	"sync"
 	"syscall"
@@ -166,6 +167,11 @@ func runSignal(c sigCase) (what string, checks int) {
 				fail("a service was shut down on the non-shutdown signal %v: %v", noise[s], ev)
 				return
 			}
+		}
+		// the operating system only delivers what was subscribed to
+		if !slices.Contains(n.sigs, shutdowns[c.Shut]) {
+			fail("the handler subscribed to %v with its SignalNotifier: the shutdown signal %v would never reach it", n.sigs, shutdowns[c.Shut])
+			return
 		}
 		n.c <- shutdowns[c.Shut]
 		synctest.Wait()
@@ -707,6 +713,42 @@ func TestRefresh(t *testing.T) {
 			r.Violation(fmt.Sprintf("refresh:%v", c), fmt.Sprintf("RefreshWorker with tick outcomes (true=error) %v, RefreshOnShutdown=%v, final refresh fails=%v, optional fields nil=%v, tick during the final refresh=%v, Shutdown during a refresh=%v, schedule returns 0=%v: %s", c.Ticks, c.OnShutdown, c.FinalFails, c.NilOpt, c.TickInFinal, c.ShutdownInRefresh, c.ZeroDelays, w), c)
 		}
 	})
+	// the ErrorHandler implementation the package ships: one log record per error, at the configured level,
+	// carrying the error
+	for li, lvl := range []slog.Level{slog.LevelDebug, slog.LevelInfo, slog.LevelWarn, slog.LevelError, slog.Level(-8)} {
+		for ei, e := range []error{errors.New("plain failure"), fmt.Errorf("wrapped: %w", errors.New("cause")), errors.Join(errors.New("a"), errors.New("b")), context.DeadlineExceeded} {
+			rec := &slogRec{}
+			h := service.NewSlogErrorHandler(slog.New(rec), lvl, fmt.Sprintf("refresh failed %d", ei))
+			for k := 1; k <= 3; k++ {
+				h.Handle(context.Background(), e)
+				r.Eval(1)
+				what := ""
+				switch {
+				case len(rec.recs) != k:
+					what = fmt.Sprintf("%d log records after %d errors", len(rec.recs), k)
+				case rec.recs[k-1].Level != lvl:
+					what = fmt.Sprintf("record at level %v, configured %v", rec.recs[k-1].Level, lvl)
+				case rec.recs[k-1].Message != fmt.Sprintf("refresh failed %d", ei):
+					what = fmt.Sprintf("record message %q", rec.recs[k-1].Message)
+				default:
+					found := false
+					rec.recs[k-1].Attrs(func(a slog.Attr) bool {
+						if ae, ok := a.Value.Any().(error); ok && ae == e {
+							found = true
+						}
+						return true
+					})
+					if !found {
+						what = "the record does not carry the error"
+					}
+				}
+				if what != "" {
+					r.Violation(fmt.Sprintf("slog-errhandler:%d:%d", li, ei), fmt.Sprintf("SlogErrorHandler(level %v) handling %q for the %d. time: %s", lvl, e, k, what), map[string]any{"level": int(lvl), "error": e.Error()})
+					break
+				}
+			}
+		}
+	}
 	r.NontrivialN(total)
 	r.Count("scenarios", total)
 	r.Exhaustive(fmt.Sprintf("every sequence of 0..%d ticks x refresh outcome {nil, error} per tick, then Shutdown x RefreshOnShutdown x final outcome, then a late tick; with instrumented and with nil optional config fields; log checked after every injected event", maxTicks))
@@ -715,3 +757,14 @@ func TestRefresh(t *testing.T) {
 		t.Fail()
 	}
 }
+
+// slogRec is a slog.Handler that keeps the records (single goroutine).
+type slogRec struct{ recs []slog.Record }
+
+func (h *slogRec) Enabled(context.Context, slog.Level) bool { return true }
+func (h *slogRec) Handle(_ context.Context, r slog.Record) error {
+	h.recs = append(h.recs, r.Clone())
+	return nil
+}
+func (h *slogRec) WithAttrs([]slog.Attr) slog.Handler { return h }
+func (h *slogRec) WithGroup(string) slog.Handler      { return h }
